@@ -15,6 +15,7 @@ func NewQueryProof
   requires !isnil(hasher)
   ensures result != nil && fresh(result) && bytes(result.Key) == bytes(key) && len(result.Key) == len(key)
   ensures len(result.Value) == len(value) && result.AuditPath == auditPath
+  ensures C13/value-kept: result.Value == value
 
 // ---- positions (verifier side) ------------------------------------------------
 
@@ -142,6 +143,8 @@ func HyperTree.Add
 func HyperTree.AddBulk
   requires len(eventDigests) > 0
   modifies everything
+  // ASSUMED (insertion code not verified): the caller's list of digests is read, not rearranged
+  ensures forall k int :: 0 <= k && k < len(eventDigests) ==> eventDigests[k] == old(eventDigests[k])
 // ASSUMED (search code not verified): the search walks from height 8*len(index)
 // down through the batch cache, which is laid out for a 256-level tree
 func pruneToFind
